@@ -27,6 +27,7 @@ LEVEL_TEXT = (
     "order, command classes, argument names and every cleaned argument value must be equal, the second serialise/load iteration must again be "
     "structurally equal, to_file must write the same text, and runnable models must give equal results. "
     "Sampled, not exhaustive."
+    ' A reader part builds CSV and NetCDF readers through add_command with DataType as a name or a type object and compares outcome and results of the built and the reloaded program; long lists and strings (beyond 100 characters) and numeric metadata values are generated.'
 )
 LEVEL_NOTE = "Values are compared after cleaning with the parameter's own cleaner (references by result name, NaN-aware, int/float kind preserved)."
 RULE = (
